@@ -532,8 +532,12 @@ func runPeach(c *mon.Case) {
 			if what, same := sameObs(o, eachObs); !same {
 				sig := "peach1-vs-each:" + what
 				if isProperPrefix(eachObs.starts, o.starts) {
-					// narrow class: everything each did, plus callbacks started after the one that broke/failed
-					sig = "peach1-vs-each:callback-started-after-break-or-fail"
+					// everything each did, plus callbacks started after the one that broke/failed
+					sig = "peach1-vs-each:callbacks-started-after-break-or-fail"
+					if len(o.starts) == len(eachObs.starts)+1 {
+						// narrow class: exactly ONE more (the input that was already past the `broken` test)
+						sig = "peach1-vs-each:one-callback-started-after-break-or-fail"
+					}
 				}
 				c.Violation(sig, fmt.Sprintf("peach &num-workers=1 differs from each (%s): each started %v, peach started %v", what, tail(eachObs.starts), tail(o.starts)),
 					map[string]any{"case": p, "each": eachObs, "peach_starts": o.starts, "peach_values": o.values, "peach_bytes": mon.Q(o.bytes), "peach_error": o.errText, "each_error": eachObs.errText})
@@ -838,6 +842,8 @@ func Spec() *mon.Spec {
 			{Name: "run-parallel", Quick: 300, Thorough: 6000, Run: runParallel, GoMaxProcs: 16, Timeout: 180 * time.Second},
 		},
 		HangViolation: true,
-		Floors:        map[string]int{},
+		Floors: map[string]int{"distinct_nontrivial": 300, "callbacks_started": 10000, "bound1_comparisons": 150,
+			"bound1_comparisons_with_break_or_fail": 30, "runs_with_overlap": 800, "runs_with_inputs_skipped_after_break_or_fail": 250,
+			"rp_functions_started": 2000, "rp_runs_with_exceptions": 120, "interleavings": 1000, "concurrency_seen": 4},
 	}
 }
